@@ -324,3 +324,53 @@ func ruleC04Ext(p *Prog, r *Result) {
 	}
 	r.Check(ok, "C04.ext", "bkl.(*Parser).loadFile / codec chosen by extension", p.Pos(fn.Pos()), "GetFormat(ext(path))", "the codec is not chosen from the file's extension alone")
 }
+
+// ruleC04Canon: normalize leaves already-canonical scalars alone; only the decoder-specific
+// number types (json.Number, int64) are converted. Otherwise the same logical value gets a
+// different dynamic type depending on which decoder produced it.
+func ruleC04Canon(p *Prog, r *Result) {
+	pr := newPSRule(p, r, "C04.canon", "bkl.normalize", PSOpts{NoInline: map[string]bool{"bkl.normalizeNumber": true, "bkl.normalizeMap": true, "bkl.normalizeList": true, "bkl.normalizeListMap": true}})
+	objP := mParam("obj")
+	converting := map[string]bool{"json.Number": true, "int64": true, "map": true, "list": true, "map[any]any": true, "[]map[string]any": true, "map[interface{}]interface{}": true, "[]map[string]interface{}": true}
+	pr.all("canonical scalars (string, bool, int, float64, null) pass through normalize unchanged", selectPaths(pr.paths, func(pa *Path) bool {
+		if pa.End != "return" {
+			return false
+		}
+		for _, g := range pa.Guards {
+			if g.Kind == "kind" && !g.Neg && objP(g.A) && converting[g.Const] {
+				return false
+			}
+		}
+		return true
+	}), "returns obj itself", func(pa *Path) (bool, string) {
+		if isSuccess(pa) && objP(pa.Results[0]) {
+			return true, ""
+		}
+		kind := "value"
+		for _, g := range pa.Guards {
+			if g.Kind == "kind" && !g.Neg && objP(g.A) {
+				kind = g.Const
+			}
+		}
+		return false, "a " + kind + " that is already canonical is converted (" + pa.Results[0].String() + "): the same logical value now has a different dynamic type depending on the decoder (JSON numbers take another route), so == based comparisons depend on the format"
+	})
+	// json.Number: integer if it parses as one, else float64 — the same split the YAML translator makes
+	pn := newPSRule(p, r, "C04.canon", "bkl.normalizeNumber", PSOpts{})
+	pn.all("a JSON number becomes int when it is written as an integer, otherwise float64", selectPaths(pn.paths, func(pa *Path) bool { return pa.End == "return" }), "Int64() ok -> int (int64 if it does not fit); else Float64()", func(pa *Path) (bool, string) {
+		okInt := guardPol(pa, "err", mCall("(encoding/json.Number).Int64"), nil)
+		res := pa.Results[0]
+		switch okInt {
+		case -1:
+			if res.Op == "convert" && (res.Name == "int") || mResOf(0, mCall("(encoding/json.Number).Int64"))(res) {
+				return true, ""
+			}
+			return false, "an integer literal is not kept as an integer: " + res.String()
+		case 1:
+			if mCall("(encoding/json.Number).Float64")(res) {
+				return true, ""
+			}
+			return false, "a non-integer literal is not converted with Float64: " + res.String()
+		}
+		return false, "the integer/float split is not decided by Int64() succeeding"
+	})
+}
